@@ -240,6 +240,68 @@ struct X86 {
       case I::kIdImul: {
         if (n == 2) { unsigned sz = int_size(o0, o1); uint64_t r = uint64_t(sext_n(read_int(o0, sz), sz) * sext_n(read_int(o1, sz), sz)); write_int(o0, r & mask_n(sz), sz); return 0; }
         if (n == 3 && in->op(2).is_imm()) { unsigned sz = reg_bytes(o0.as<Reg>()); uint64_t r = uint64_t(sext_n(read_int(o1, sz), sz) * in->op(2).as<Imm>().value()); write_int(o0, r & mask_n(sz), sz); return 0; }
+        if (n == 3 && is_gp(o0) && is_gp(o1)) {   // explicit form of the one-operand imul: hi:lo = lo * src (signed)   [added for C05]
+          unsigned sz = reg_bytes(o1.as<Reg>()); if (sz < 2) break;
+          __int128 r = (__int128)sext_n(read_int(o1, sz), sz) * sext_n(read_int(in->op(2), sz), sz);
+          write_int(o1, uint64_t(r) & mask_n(sz), sz); write_int(o0, uint64_t((unsigned __int128)r >> (8 * sz)) & mask_n(sz), sz); return 0;
+        }
+        break;
+      }
+      // ---- added for C05 (x86-32 leg): rotates, widening multiply/divide, cmpxchg, bt ----
+      case I::kIdRol: case I::kIdRor: {
+        unsigned sz = int_size(o0, o0); unsigned bits = 8 * sz; uint64_t a = read_int(o0, sz);
+        uint64_t cnt = (o1.is_imm() ? uint64_t(o1.as<Imm>().value()) : gp_read(o1.as<Reg>())) & (sz == 8 ? 63 : 31);
+        cnt %= bits; if (!cnt) return 0;
+        uint64_t r = id == I::kIdRol ? ((a << cnt) | (a >> (bits - cnt))) : ((a >> cnt) | (a << (bits - cnt)));
+        r &= mask_n(sz); m.cf = id == I::kIdRol ? (r & 1) : ((r >> (bits - 1)) & 1); write_int(o0, r, sz); return 0;
+      }
+      case I::kIdCdq: case I::kIdCqo: case I::kIdCwd: {
+        if (n != 2) break;
+        unsigned sz = reg_bytes(o1.as<Reg>()); uint64_t a = read_int(o1, sz);
+        write_int(o0, ((a >> (8 * sz - 1)) & 1) ? mask_n(sz) : 0, sz); return 0;
+      }
+      case I::kIdMul: {
+        if (n != 3) break;
+        unsigned sz = reg_bytes(o1.as<Reg>()); if (sz < 2) break;
+        unsigned __int128 r = (unsigned __int128)read_int(o1, sz) * read_int(in->op(2), sz);
+        uint64_t lo = uint64_t(r) & mask_n(sz), hi = uint64_t(r >> (8 * sz)) & mask_n(sz);
+        write_int(o1, lo, sz); write_int(o0, hi, sz); m.cf = m.of = hi != 0; return 0;
+      }
+      case I::kIdIdiv: case I::kIdDiv: {
+        if (n != 3) break;
+        unsigned sz = reg_bytes(o1.as<Reg>()); if (sz < 4) break;
+        uint64_t hi = read_int(o0, sz), lo = read_int(o1, sz), d = read_int(in->op(2), sz);
+        if (!d) { m.fault = "#DE: division by zero"; return 0; }
+        if (id == I::kIdIdiv) {
+          __int128 dv = sz == 8 ? (__int128)(((unsigned __int128)hi << 64) | lo) : (__int128)int64_t((hi << 32) | lo);
+          __int128 dd = sext_n(d, sz), q = dv / dd, r = dv % dd;
+          if (q != (__int128)sext_n(uint64_t(q), sz)) { m.fault = "#DE: quotient overflow"; return 0; }
+          write_int(o1, uint64_t(q) & mask_n(sz), sz); write_int(o0, uint64_t(r) & mask_n(sz), sz);
+        } else {
+          unsigned __int128 dv = sz == 8 ? (((unsigned __int128)hi << 64) | lo) : (unsigned __int128)((hi << 32) | lo);
+          unsigned __int128 q = dv / d, r = dv % d;
+          if (q > mask_n(sz)) { m.fault = "#DE: quotient overflow"; return 0; }
+          write_int(o1, uint64_t(q), sz); write_int(o0, uint64_t(r), sz);
+        }
+        return 0;
+      }
+      case I::kIdCmpxchg: {
+        if (n != 3) break;
+        unsigned sz = int_size(o0, o1); uint64_t dst = read_int(o0, sz), acc = read_int(in->op(2), sz);
+        set_flags_add(acc, dst, acc - dst, sz, true);
+        if (acc == dst) write_int(o0, read_int(o1, sz), sz); else write_int(in->op(2), dst, sz);
+        return 0;
+      }
+      case I::kIdBt: {
+        if (n != 2) break;
+        if (is_gp(o0)) { unsigned sz = reg_bytes(o0.as<Reg>()); uint64_t idx = (o1.is_imm() ? uint64_t(o1.as<Imm>().value()) : gp_read(o1.as<Reg>())) & (8 * sz - 1); m.cf = (gp_read(o0.as<Reg>()) >> idx) & 1; return 0; }
+        if (o0.is_mem()) {
+          unsigned sz = o0.as<x86::Mem>().size() ? o0.as<x86::Mem>().size() : (is_gp(o1) ? reg_bytes(o1.as<Reg>()) : 0); if (!sz) break;
+          uint64_t a = ea(o0.as<x86::Mem>());
+          if (o1.is_imm()) { uint64_t idx = uint64_t(o1.as<Imm>().value()) & (8 * sz - 1); m.cf = (m.rd(a, sz) >> idx) & 1; return 0; }
+          int64_t idx = sext_n(gp_read(o1.as<Reg>()), sz);             // bit-string addressing: the offset is not taken modulo the operand size
+          m.cf = (m.rd8(a + uint64_t(idx >> 3)) >> (idx & 7)) & 1; return 0;
+        }
         break;
       }
       case I::kIdKmovb: case I::kIdKmovw: case I::kIdKmovd: case I::kIdKmovq: {
@@ -281,6 +343,14 @@ struct X86 {
         {I::kIdJbe, 6}, {I::kIdJna, 6}, {I::kIdJa, 7}, {I::kIdJnbe, 7}, {I::kIdJs, 8}, {I::kIdJns, 9}, {I::kIdJp, 10}, {I::kIdJpe, 10}, {I::kIdJnp, 11}, {I::kIdJpo, 11},
         {I::kIdJl, 12}, {I::kIdJnge, 12}, {I::kIdJge, 13}, {I::kIdJnl, 13}, {I::kIdJle, 14}, {I::kIdJng, 14}, {I::kIdJg, 15}, {I::kIdJnle, 15}};
       for (auto& t : tab) if (t.id == id) { if (cond(t.cc)) { jump_label = o0.as<Label>().id(); return 2; } return 0; }
+    }
+    // setcc / cmovcc   [added for C05]
+    for (uint32_t cc = 0; cc < 16; cc++) {
+      if (id == x86::Inst::setcc_from_cond(x86::CondCode(cc)) && n == 1) { write_int(o0, cond(cc) ? 1 : 0, 1); return 0; }
+      if (id == x86::Inst::cmovcc_from_cond(x86::CondCode(cc)) && n == 2 && is_gp(o0)) {
+        unsigned sz = reg_bytes(o0.as<Reg>()); uint64_t src = read_int(o1, sz);
+        write_int(o0, cond(cc) ? src : read_int(o0, sz), sz); return 0;       // a 32-bit cmov zero-extends in 64-bit mode even when not taken
+      }
     }
     m.unsupported = "x86 instruction id " + std::to_string(id);
     return 0;
@@ -368,6 +438,8 @@ struct A64 {
         if (id == I::kIdAdds) { m.unsupported = "adds flags"; }
         gp_write(o0.as<Reg>(), r & mask_n(b)); return 0;
       }
+      case I::kIdNeg: { if (!is_gp(o0) || !is_gp(o1) || n != 2) break; unsigned b = reg_bytes(o0.as<Reg>()); gp_write(o0.as<Reg>(), (0 - gp_read(o1.as<Reg>())) & mask_n(b)); return 0; }   // [added for C05]
+      case I::kIdMvn: { if (!is_gp(o0) || !is_gp(o1) || n != 2) break; unsigned b = reg_bytes(o0.as<Reg>()); gp_write(o0.as<Reg>(), ~gp_read(o1.as<Reg>()) & mask_n(b)); return 0; }        // [added for C05]
       case I::kIdMul: { unsigned b = reg_bytes(o0.as<Reg>()); gp_write(o0.as<Reg>(), (gp_read(o1.as<Reg>()) * gp_read(o2.as<Reg>())) & mask_n(b)); return 0; }
       case I::kIdMadd: { unsigned b = reg_bytes(o0.as<Reg>()); gp_write(o0.as<Reg>(), (gp_read(o1.as<Reg>()) * gp_read(o2.as<Reg>()) + gp_read(in->op(3).as<Reg>())) & mask_n(b)); return 0; }
       case I::kIdLsl: case I::kIdLsr: case I::kIdAsr: { unsigned b = reg_bytes(o0.as<Reg>()); uint64_t a = gp_read(o1.as<Reg>()); uint64_t c = (o2.is_imm() ? uint64_t(o2.as<Imm>().value()) : gp_read(o2.as<Reg>())) & (b * 8 - 1); uint64_t r = id == I::kIdLsl ? a << c : id == I::kIdLsr ? a >> c : uint64_t(sext_n(a, b) >> c); gp_write(o0.as<Reg>(), r & mask_n(b)); return 0; }
